@@ -4,6 +4,7 @@
 -/
 import SoundeventModel.Audio
 import Proofs.Lemmas.Audio
+import Mathlib.Data.List.Induction
 namespace SE.Proofs.C15
 open SE SE.Audio
 
@@ -784,6 +785,393 @@ example : stftAxesUnclamped 50 0 (1 / 8192) (64 / 8192) (10 / 8192) = .error .va
 -- resampled again truthfully
 example : (resampleAxis 32 0 (1 / 16000) (1 / 16000) 160000).toOption.map (fun a => (a.coords.length, axisOk 0 a)) =
     some (320, true) := by decide +kernel
+
+/-! ### follow-up (histories and construction paths): options, positional calls, sessions -/
+
+/-- the defaults (`padded=True`, `boundary="zeros"`) of the option-aware model are the model of the
+    code all other theorems are about -/
+theorem C15_stft_options_default (len : Nat) (t0 step w h : Rat) :
+    stftAxesOpt true true len t0 step w h = stftAxes len t0 step w h := by
+  unfold stftAxesOpt stftAxes stftAxesGen
+  have hc : stftClamp true (stftNperseg step w) len = min (stftNperseg step w) (len : Int) := by
+    simp [stftClamp]
+  rw [hc]
+  have hm : min (min (stftNperseg step w) (len : Int)) (len : Int) = min (stftNperseg step w) (len : Int) := by
+    omega
+  simp only [hm, stftFirst, stftCountOpt, stftCount, if_true, Bool.false_eq_true, if_false]
+
+/-- whatever `padded` / `boundary` are, both axes are exactly `first + k·step` for their advertised
+    steps — the time axis starting at the source's start or (no boundary extension) at the centre of
+    the first whole window — and the monitor accepts them -/
+theorem C15_stft_options_truthful (padded ext : Bool) (len : Nat) (t0 step w h : Rat) (a : SpecAxes)
+    (hok : stftAxesOpt padded ext len t0 step w h = .ok a) :
+    (∀ k (hk : k < a.time.coords.length),
+      a.time.coords[k] = stftFirst ext t0 step a.nperseg + (k : Rat) * a.time.step) ∧
+    (∀ k (hk : k < a.freq.coords.length), a.freq.coords[k] = (k : Rat) * a.freq.step) ∧
+    (0 < step → axisOk (stftFirst ext t0 step a.nperseg) a.time = true ∧ axisOk 0 a.freq = true) := by
+  obtain ⟨_, hn1, hov, rfl⟩ := stftAxesOpt_ok padded ext len t0 step w h a hok
+  have ht : ∀ k (hk : k < (stftTimes (stftFirst ext t0 step (min (stftNperseg step w) (len : Int))) step
+        (min (stftNperseg step w) (len : Int) - stftNoverlap step w h)
+        (stftCountOpt padded ext len (min (stftNperseg step w) (len : Int)) (stftNoverlap step w h))).length),
+      (stftTimes (stftFirst ext t0 step (min (stftNperseg step w) (len : Int))) step
+        (min (stftNperseg step w) (len : Int) - stftNoverlap step w h)
+        (stftCountOpt padded ext len (min (stftNperseg step w) (len : Int)) (stftNoverlap step w h)))[k] =
+      stftFirst ext t0 step (min (stftNperseg step w) (len : Int)) + (k : Rat) *
+        (((min (stftNperseg step w) (len : Int) - stftNoverlap step w h : Int) : Rat) / (1 / step)) := by
+    intro k hk
+    rw [stftTimes_getElem]; push_cast; field_simp
+  have hf : ∀ k (hk : k < (stftFreqs step (min (stftNperseg step w) (len : Int))).length),
+      (stftFreqs step (min (stftNperseg step w) (len : Int)))[k] =
+        (k : Rat) * (1 / step / ((min (stftNperseg step w) (len : Int) : Int) : Rat)) := by
+    intro k hk; rw [stftFreqs_getElem]
+  refine ⟨ht, hf, fun hstep => ?_⟩
+  have hts : (0 : Rat) < ((min (stftNperseg step w) (len : Int) - stftNoverlap step w h : Int) : Rat) / (1 / step) := by
+    apply div_pos _ (one_div_pos.mpr hstep)
+    exact_mod_cast (by omega : (0 : Int) < min (stftNperseg step w) (len : Int) - stftNoverlap step w h)
+  have hfs : (0 : Rat) < 1 / step / ((min (stftNperseg step w) (len : Int) : Int) : Rat) := by
+    apply div_pos (one_div_pos.mpr hstep)
+    exact_mod_cast (by omega : (0 : Int) < min (stftNperseg step w) (len : Int))
+  constructor
+  · rw [C15_monitor_meaning]
+    refine ⟨fun i hi => ?_, fun h0 => ?_, fun i hi => ?_⟩
+    · simp only at hi ⊢
+      rw [ht i (by omega), ht (i + 1) hi]; push_cast at hts ⊢; nlinarith
+    · simp only at h0 ⊢
+      rw [ht 0 h0]; simp
+    · simp only at hi ⊢
+      rw [ht i hi]; simpa using hts
+  · rw [C15_monitor_meaning]
+    refine ⟨fun i hi => ?_, fun h0 => ?_, fun i hi => ?_⟩
+    · simp only at hi ⊢
+      rw [hf i (by omega), hf (i + 1) hi]
+      generalize 1 / step / ((min (stftNperseg step w) (len : Int) : Int) : Rat) = q at hfs ⊢
+      push_cast; nlinarith
+    · simp only at h0 ⊢
+      rw [hf 0 h0]; simp
+    · simp only at hi ⊢
+      rw [hf i hi]; simpa using hfs
+
+/-- the options never reach the window, the overlap, the advertised steps or the frequency axis: a
+    call with any `padded` / `boundary` succeeds exactly when the default call does, and they agree on
+    all of these (only the number of segments, and for `boundary=None` the first centre, differ) -/
+theorem C15_stft_options_same_steps (padded ext : Bool) (len : Nat) (t0 step w h : Rat) (a : SpecAxes)
+    (hok : stftAxesOpt padded ext len t0 step w h = .ok a) :
+    ∃ b, stftAxes len t0 step w h = .ok b ∧ a.nperseg = b.nperseg ∧ a.noverlap = b.noverlap ∧
+      a.time.step = b.time.step ∧ a.freq = b.freq := by
+  obtain ⟨h0, hn1, hov, rfl⟩ := stftAxesOpt_ok padded ext len t0 step w h a hok
+  rw [← C15_stft_options_default]
+  unfold stftAxesOpt
+  have h1 : len ≠ 0 := by omega
+  have h2 : ¬ min (stftNperseg step w) (len : Int) < 1 := by omega
+  have h3 : ¬ stftNoverlap step w h ≥ min (stftNperseg step w) (len : Int) := by omega
+  simp only [h1, h2, h3, if_false]
+  exact ⟨_, rfl, rfl, rfl, rfl, rfl⟩
+
+/-- positional calls: under a signature without repeated names the i-th positional value is bound to
+    the i-th documented parameter — a positional call *is* the keyword call with the documented names -/
+theorem C15_positional_binding {α : Type} (params : List String) (args : List α) (hnd : params.Nodup)
+    (hlen : args.length ≤ params.length) (i : Nat) (hi : i < args.length) :
+    (bindPositional params args).lookup (params[i]'(by omega)) = some args[i] := by
+  unfold bindPositional
+  induction params generalizing args i with
+  | nil =>
+    have : args.length = 0 := by simpa using hlen
+    omega
+  | cons p ps ih =>
+    cases args with
+    | nil => simp at hi
+    | cons x xs =>
+      cases i with
+      | zero => simp
+      | succ j =>
+        have hnd' := List.nodup_cons.mp hnd
+        have hj : j < xs.length := by simpa using hi
+        have hlen' : xs.length ≤ ps.length := by simpa using hlen
+        have hne : (ps[j]'(by omega) == p) = false := by
+          simp only [beq_eq_false_iff_ne, ne_eq]
+          intro he
+          exact hnd'.1 (he ▸ List.getElem_mem (by omega))
+        simp only [List.zip_cons_cons, List.getElem_cons_succ, List.lookup, hne]
+        exact ih xs hnd'.2 hlen' j hj
+
+/-- … and the documented signatures of the four public functions have no repeated names, the audio
+    array / clip / recording first and the numeric parameters in the documented order -/
+theorem C15_signatures_wellformed :
+    (∀ fn ∈ signatures.map (·.1), (paramsOf fn).Nodup) ∧
+    paramsOf "compute_spectrogram" = ["audio", "window_size", "hop_size", "window_type", "detrend", "padded", "boundary"] ∧
+    paramsOf "resample" = ["array", "target_samplerate", "window", "dim"] ∧
+    paramsOf "load_clip" = ["clip", "audio_dir"] ∧ paramsOf "load_recording" = ["recording", "audio_dir"] := by
+  decide
+
+/-! #### sessions -/
+
+theorem runSession_snoc (S : Source) (steps : List Step) (st : Step) :
+    runSession S (steps ++ [st]) = runSession S steps ++ [evalStep S (runSession S steps) st] := by
+  simp [runSession, List.foldl_append]
+
+/-- one value per step -/
+theorem C15_session_length (S : Source) (steps : List Step) : (runSession S steps).length = steps.length := by
+  induction steps using List.reverseRecOn with
+  | nil => simp [runSession]
+  | append_singleton l st ih => rw [runSession_snoc]; simp [ih]
+
+/-- later steps never change what earlier steps produced (no call writes into an earlier array, no
+    result aliases internal state): the values of a session are a prefix of those of every extension -/
+theorem C15_session_prefix (S : Source) (steps more : List Step) :
+    (runSession S (steps ++ more)).take steps.length = runSession S steps := by
+  induction more using List.reverseRecOn with
+  | nil => simp [← C15_session_length S steps]
+  | append_singleton l st ih =>
+    rw [← List.append_assoc, runSession_snoc, List.take_append_of_le_length]
+    · exact ih
+    · rw [C15_session_length]; simp
+
+/-- every step is the base operation's model applied to the values its sources had when *they* were
+    produced — nothing else of the history enters -/
+theorem C15_session_step (S : Source) (steps : List Step) (k : Nat) (hk : k < steps.length) :
+    (runSession S steps)[k]? = some (evalStep S (runSession S (steps.take k)) steps[k]) := by
+  have hsplit : steps = steps.take k ++ [steps[k]] ++ steps.drop (k + 1) := by
+    rw [List.append_assoc, List.singleton_append, List.getElem_cons_drop, List.take_append_drop]
+  have hp := C15_session_prefix S (steps.take k ++ [steps[k]]) (steps.drop (k + 1))
+  rw [← hsplit] at hp
+  have hl : (steps.take k ++ [steps[k]]).length = k + 1 := by simp; omega
+  rw [hl, runSession_snoc] at hp
+  have hlk : (runSession S (steps.take k)).length = k := by rw [C15_session_length]; simp; omega
+  have : ((runSession S steps).take (k + 1))[k]? = some (evalStep S (runSession S (steps.take k)) steps[k]) := by
+    rw [hp, List.getElem?_append_right (by omega), hlk]; simp
+  rw [List.getElem?_take] at this
+  simpa using this
+
+/-- looking at an earlier array again gives that array -/
+theorem C15_session_look (S : Source) (steps : List Step) (k j : Nat) (hk : k < steps.length)
+    (hst : steps[k] = .look j) (hj : j < k) (a : Axis)
+    (hv : (runSession S steps)[j]? = some (.ok (.audio a))) :
+    (runSession S steps)[k]? = some (.ok (.audio a)) := by
+  rw [C15_session_step S steps k hk, hst]
+  have hp := C15_session_prefix S (steps.take k) (steps.drop k)
+  rw [List.take_append_drop] at hp
+  have hjk : (runSession S (steps.take k))[j]? = some (.ok (.audio a)) := by
+    rw [← hp, List.getElem?_take]
+    have : j < (steps.take k).length := by simp; omega
+    simp only [this, hv, if_true]
+  simp [evalStep, srcAudio, hjk]
+
+theorem exact_iff (a : Axis) :
+    a.exact = true ↔ ∀ h : 1 < a.coords.length, a.coords[1] - a.coords[0] = a.step := by
+  obtain ⟨coords, st⟩ := a
+  match coords with
+  | [] => simp [Axis.exact]
+  | [x] => simp [Axis.exact]
+  | x :: y :: t => simp [Axis.exact]
+
+theorem srcAudio_ok (env : List (Except AErr SVal)) (j : Nat) (a : Axis) (h : srcAudio env j = .ok a) :
+    env[j]? = some (.ok (.audio a)) := by
+  unfold srcAudio at h
+  split at h <;> simp_all
+
+/-- arrays that come straight from a file have the spacing they advertise -/
+theorem C15_loaded_exact :
+    (∀ (file : List Frame) (ch sr : Nat) (s e : Rat) (a : TimeArray), loadClip file ch sr s e = .ok a →
+      (⟨a.times, a.step⟩ : Axis).exact = true) ∧
+    (∀ (file : List Frame) (sr : Nat) (d : Rat) (a : TimeArray), loadRecording file sr d = .ok a →
+      (⟨a.times, a.step⟩ : Axis).exact = true) := by
+  constructor
+  · intro file ch sr s e a h
+    obtain ⟨_, _, _, _, rfl⟩ := loadClip_ok file ch sr s e a h
+    rw [exact_iff]; intro h1
+    simp only [lattice_getElem]; push_cast; ring
+  · intro file sr d a h
+    obtain ⟨_, rfl⟩ := loadRecording_ok file sr d a h
+    rw [exact_iff]; intro h1
+    simp only [lattice_getElem]; push_cast; ring
+
+/-- a resampled array has the spacing it advertises exactly when the number of output samples is the
+    exact ratio (no truncation happened): only then may it be resampled again truthfully
+    (`C15_resample_chain_untruthful`, known finding C15-2) -/
+theorem C15_resample_exact_iff (n : Nat) (t0 t1 step : Rat) (target : Nat) (a : Axis)
+    (h : resampleAxis n t0 t1 step target = .ok a) (h2 : 1 < a.coords.length) :
+    a.exact = true ↔ (n : Rat) * (target : Rat) * (t1 - t0) = (a.coords.length : Rat) := by
+  have hd0 := (C15_resample_drift n t0 t1 step target a h 0 (by omega)).2
+  have hsp := C15_resample_span n t0 t1 step target a h
+  have hst : a.step = 1 / (target : Rat) := by
+    obtain ⟨_, _, rfl⟩ := resampleAxis_ok n t0 t1 step target a h; rfl
+  have hT : (0 : Rat) < target := by exact_mod_cast hd0
+  have hL : (0 : Rat) < (a.coords.length : Rat) := by exact_mod_cast (by omega : 0 < a.coords.length)
+  rw [exact_iff]
+  constructor
+  · intro he
+    have := he h2
+    rw [hsp 1 h2, hsp 0 (by omega), hst] at this
+    field_simp at this
+    push_cast at this
+    linarith
+  · intro he _
+    rw [hsp 1 h2, hsp 0 (by omega), hst]
+    field_simp
+    push_cast
+    linarith
+
+/-- the invariant of a session: audio axes are arithmetic progressions the monitor accepts (relative
+    to their own start) with a positive advertised step; spectrogram axes are accepted by the monitor -/
+def goodVal : SVal → Prop
+  | .audio a => a.good
+  | .spec s => SVal.truthful (.spec s) = true
+
+theorem bind_ok {ε α β : Type} {x : Except ε α} {f : α → Except ε β} {b : β} (h : x >>= f = .ok b) :
+    ∃ a, x = .ok a ∧ f a = .ok b := by
+  cases x with
+  | error e => simp [bind, Except.bind] at h
+  | ok a => exact ⟨a, rfl, h⟩
+
+theorem step_good (S : Source) (env : List (Except AErr SVal)) (st : Step) (v : SVal)
+    (henv : ∀ (j : Nat) (a : Axis), env[j]? = some (Except.ok (SVal.audio a)) → a.good)
+    (hex : ∀ (j target : Nat), st = Step.resample j target →
+      ∀ a : Axis, env[j]? = some (Except.ok (SVal.audio a)) → a.exact = true)
+    (hv : evalStep S env st = .ok v) : goodVal v := by
+  cases st with
+  | loadClip s e =>
+    simp only [evalStep] at hv
+    cases hl : loadClip S.file S.ch S.sr s e with
+    | error e => simp [hl, Except.map] at hv
+    | ok a =>
+      simp only [hl, Except.map, Except.ok.injEq] at hv
+      subst hv
+      obtain ⟨_, hsr, _, _, rfl⟩ := loadClip_ok _ _ _ _ _ a hl
+      exact good_lattice _ _ _ (one_div_pos.mpr (by exact_mod_cast hsr))
+  | loadRecording =>
+    simp only [evalStep] at hv
+    cases hl : loadRecording S.file S.sr S.duration with
+    | error e => simp [hl, Except.map] at hv
+    | ok a =>
+      simp only [hl, Except.map, Except.ok.injEq] at hv
+      subst hv
+      obtain ⟨hsr, rfl⟩ := loadRecording_ok _ _ _ a hl
+      exact good_lattice _ _ _ (one_div_pos.mpr (by exact_mod_cast hsr))
+  | resample j target =>
+    obtain ⟨x, hs, h1⟩ := bind_ok (show (srcAudio env j >>= fun a =>
+      resampleAxis a.coords.length (a.coords.headD 0) (a.coords.getD 1 0) a.step target >>= fun r =>
+        pure (SVal.audio r)) = .ok v from hv)
+    obtain ⟨r, hr, h2⟩ := bind_ok h1
+    cases h2
+    have hx := henv j x (srcAudio_ok env j x hs)
+    have hxe := hex j target rfl x (srcAudio_ok env j x hs)
+    obtain ⟨hn2, _, _⟩ := resampleAxis_ok _ _ _ _ _ r hr
+    have hdt : x.coords.getD 1 0 - x.coords.headD 0 = x.step := by
+      have := (exact_iff x).mp hxe (by omega)
+      rw [headD_eq_getElem _ (by omega)]
+      have h1 : x.coords.getD 1 0 = x.coords[1]'(by omega) := by
+        simp [List.getD, List.getElem?_eq_getElem (show 1 < x.coords.length by omega)]
+      rw [h1]; exact this
+    have hok := C15_axis_ok_resample _ _ _ _ _ r hr hx.1 hdt
+    have hlen := (C15_resample_length _ _ _ _ _ r hr hx.1)
+    have hT := (C15_resample_drift _ _ _ _ _ r hr 0 hlen.2.1).2
+    have hhead : r.coords.headD 0 = x.coords.headD 0 := by
+      rw [headD_eq_getElem _ hlen.2.1]
+      exact ((axisOk_iff _ _).mp hok).2.1 hlen.2.1
+    refine ⟨?_, axisOk_headD _ _ hok,
+      (x.coords.length : Rat) * (x.coords.getD 1 0 - x.coords.headD 0) / (r.coords.length : Rat), fun i hi => ?_⟩
+    · rw [hlen.1]; exact one_div_pos.mpr (by exact_mod_cast hT)
+    · rw [hhead]; exact C15_resample_span _ _ _ _ _ r hr i hi
+  | spectrogram j w h padded ext =>
+    obtain ⟨x, hs, h1⟩ := bind_ok (show (srcAudio env j >>= fun a =>
+      stftAxesOpt padded ext a.coords.length (a.coords.headD 0) a.step w h >>= fun r =>
+        pure (SVal.spec r)) = .ok v from hv)
+    obtain ⟨r, hr, h2⟩ := bind_ok h1
+    cases h2
+    have hx := henv j x (srcAudio_ok env j x hs)
+    have := (C15_stft_options_truthful padded ext _ _ _ _ _ r hr).2.2 hx.1
+    simp only [goodVal, SVal.truthful, Bool.and_eq_true]
+    exact ⟨axisOk_headD _ _ this.1, this.2⟩
+  | slice j a b =>
+    obtain ⟨x, hs, h1⟩ := bind_ok (show (srcAudio env j >>= fun x =>
+      pure (SVal.audio ⟨(x.coords.take b).drop a, x.step⟩)) = .ok v from hv)
+    cases h1
+    exact good_slice x a b (henv j x (srcAudio_ok env j x hs))
+  | look j =>
+    obtain ⟨x, hs, h1⟩ := bind_ok (show (srcAudio env j >>= fun x => pure (SVal.audio x)) = .ok v from hv)
+    cases h1
+    exact henv j x (srcAudio_ok env j x hs)
+
+theorem session_good (S : Source) (steps : List Step)
+    (hex : ∀ (k j target : Nat), steps[k]? = some (Step.resample j target) →
+      ∀ a : Axis, (runSession S steps)[j]? = some (Except.ok (SVal.audio a)) → j < k → a.exact = true) :
+    ∀ (k : Nat) (v : SVal), (runSession S steps)[k]? = some (Except.ok v) → goodVal v := by
+  induction steps using List.reverseRecOn with
+  | nil => intro k v h; simp [runSession] at h
+  | append_singleton l st ih =>
+    have hlen := C15_session_length S l
+    have hpre : ∀ j, j < l.length → (runSession S (l ++ [st]))[j]? = (runSession S l)[j]? := by
+      intro j hj; rw [runSession_snoc, List.getElem?_append_left (by omega)]
+    have ih' := ih (fun k j target hk a ha hjk => by
+      have hkl : k < l.length := by
+        by_contra hc
+        rw [List.getElem?_eq_none (by omega)] at hk; simp at hk
+      refine hex k j target ?_ a ?_ hjk
+      · rw [List.getElem?_append_left hkl]; exact hk
+      · rw [hpre j (by omega)]; exact ha)
+    intro k v hk
+    by_cases hkl : k < l.length
+    · rw [hpre k hkl] at hk; exact ih' k v hk
+    · rw [runSession_snoc] at hk
+      by_cases hke : k = l.length
+      · subst hke
+        rw [List.getElem?_append_right (by omega), hlen] at hk
+        simp only [Nat.sub_self, List.getElem?_cons_zero, Option.some.injEq] at hk
+        refine step_good S (runSession S l) st v (fun j a ha => ih' j (.audio a) ha) ?_ hk
+        intro j target hst a ha
+        have hjl : j < l.length := by
+          by_contra hc
+          rw [List.getElem?_eq_none (by omega)] at ha; simp at ha
+        refine hex l.length j target ?_ a ?_ hjl
+        · rw [List.getElem?_append_right (by omega)]; simp [hst]
+        · rw [hpre j hjl]; exact ha
+      · rw [List.getElem?_eq_none (by simp; omega)] at hk; simp at hk
+
+/-- **sessions tell the truth**: in every session in which `resample` is only applied to arrays whose
+    spacing is their advertised step (arrays from a file always are, `C15_loaded_exact`; a resampled
+    array iff no truncation happened, `C15_resample_exact_iff`), *every* array produced — loaded,
+    resampled, sliced, looked at again, and both axes of every spectrogram for every `padded` /
+    `boundary` — is strictly increasing and within one advertised step of `first + i·step`, and every
+    audio array advertises a positive step.  Together with `C15_session_prefix` (values never change
+    afterwards) this is the property over histories. -/
+theorem C15_session_truthful (S : Source) (steps : List Step)
+    (hex : ∀ (k j target : Nat), steps[k]? = some (Step.resample j target) →
+      ∀ a : Axis, (runSession S steps)[j]? = some (Except.ok (SVal.audio a)) → j < k → a.exact = true)
+    (k : Nat) (v : SVal) (hv : (runSession S steps)[k]? = some (Except.ok v)) :
+    v.truthful = true ∧ ∀ a, v = .audio a → 0 < a.step := by
+  have := session_good S steps hex k v hv
+  cases v with
+  | audio a => exact ⟨this.2.1, fun b hb => by cases hb; exact this.1⟩
+  | spec s => exact ⟨this, fun b hb => by cases hb⟩
+
+-- non-vacuity of the follow-up theorems
+-- options: 20 samples at 8 Hz from 0.5 s, window 1 s, hop 0.375 s (3 samples): 8 / 7 / 5 / 5 segments, the first
+-- at the source's start or, without a boundary extension, half a window (0.5 s) later; steps are those of the default
+example : [(true, true), (false, true), (true, false), (false, false)].map (fun (p : Bool × Bool) =>
+    (stftAxesOpt p.1 p.2 20 (1 / 2) (1 / 8) 1 (3 / 8)).toOption.map
+      (fun a => (a.time.coords.length, a.time.coords.head?, a.time.step, a.freq.step))) =
+    [some (8, some (1 / 2), 3 / 8, 1), some (7, some (1 / 2), 3 / 8, 1),
+     some (5, some 1, 3 / 8, 1), some (5, some 1, 3 / 8, 1)] := by decide +kernel
+example : (stftAxesOpt false false 20 (1 / 2) (1 / 8) 1 (3 / 8)).toOption.map
+    (fun a => (axisOk (stftFirst false (1 / 2) (1 / 8) a.nperseg) a.time, axisOk 0 a.freq)) = some (true, true) := by
+  decide +kernel
+-- positional binding on the documented signature
+example : (bindPositional (paramsOf "compute_spectrogram") ["audio", "0.02", "0.01", "hamming"]).lookup "hop_size" =
+    some "0.01" := by decide
+example : (bindPositional (paramsOf "resample") ["array", "8000"]).lookup "target_samplerate" = some "8000" := by decide
+-- a session on the 6-frame demo file at 4 Hz: clip, its spectrogram (no padding, no boundary), an exact resampling
+-- (6 x 8 / 4 = 12 samples), a resampling of that, a slice, a second look at the clip, a spectrogram of the slice:
+-- every value truthful, the resampled arrays exact, the hypothesis of `C15_session_truthful` satisfied
+example : (runSession ⟨demoFile, 2, 4, 3 / 2⟩
+      [.loadClip (1 / 8) (3 / 2), .spectrogram 0 (1 / 2) (1 / 4) false false, .resample 0 8, .resample 2 16,
+       .slice 3 2 9, .look 0, .loadRecording, .spectrogram 4 (1 / 4) (1 / 16) true true]).map
+    (fun r => r.toOption.map fun v => (v.truthful, match v with | .audio a => (a.coords.length, a.exact) | .spec s => (s.time.coords.length, true))) =
+    [some (true, 5, true), some (true, 4, true), some (true, 10, true), some (true, 20, true), some (true, 7, true),
+     some (true, 5, true), some (true, 6, true), some (true, 8, true)] := by decide +kernel
+-- … and a resampling that truncates (5 x 6 / 4 = 7.5 -> 7 samples) is not exact: resampling *it* is outside the hypothesis
+example : (runSession ⟨demoFile, 2, 4, 3 / 2⟩ [.loadClip (1 / 8) (3 / 2), .resample 0 6]).map
+    (fun r => r.toOption.map fun v => (v.truthful, match v with | .audio a => a.exact | .spec _ => true)) =
+    [some (true, true), some (true, false)] := by decide +kernel
 
 
 end SE.Proofs.C15
